@@ -247,7 +247,7 @@ IndexMenu(n, depth, ln) ==
 AxisMenu(n, nd) ==
   IF nd <= 2 THEN
     {Ix(i) : i \in {-n - 1, -n, -1, 0, n - 1, n}} \cup
-    {FullSl, Sl(1, NoneV, NoneV), Sl(NoneV, NoneV, 2), Sl(NoneV, NoneV, -1),
+    {FullSl, Sl(NoneV, NoneV, 2), Sl(NoneV, NoneV, -1),
      Sl(1, 2 * n + 1, 2), Sl(n, -n - 2, -1), Sl(-n - 2, n, -2), Sl(-1, 0, -2), Sl(n - 1, 0, 3), Sl(0, n, 0)}
   ELSE
     {Ix(i) : i \in {-n - 1, -1, 0, n}} \cup {FullSl, Sl(1, 2 * n + 1, 2), Sl(n, -n - 2, -1), Sl(-1, 0, -2)}
@@ -276,9 +276,9 @@ I1(m, ns, ls) == {<<m, <<n>>, <<l>>>> : n \in ns, l \in ls}
 INd(m, lenss, layss) == {<<m, a, b>> : a \in lenss, b \in layss}
 Lays2 == {<<"c", "c">>, <<"s2", "r">>, <<"r", "s2">>}
 Lays3 == {<<"c", "c", "c">>, <<"r", "s2", "c">>}
-InitsQ == I1("full1", 0..4, {"c"}) \cup I1("full1", {3}, {"s2", "r"})
-          \cup I1("chain1", {4}, {"r"}) \cup I1("chain1", {2}, {"s2"})
-          \cup I1("nd", {0, 3}, {"c", "r"})
+InitsQ == I1("full1", 0..4, {"c"}) \cup I1("full1", {2}, {"s2"}) \cup I1("full1", {3}, {"r"})
+          \cup I1("chain1", {3}, {"r"})
+          \cup I1("nd", {0}, {"c"}) \cup I1("nd", {3}, {"r"})
           \cup INd("nd", {<<3, 2>>}, {<<"s2", "r">>}) \cup INd("nd", {<<2, 0>>}, {<<"c", "c">>})
           \cup INd("nd", {<<2, 1, 3>>}, {<<"r", "s2", "c">>})
 InitsT == I1("full1", 0..6, Layouts)
